@@ -321,7 +321,9 @@ func (c *cors) headerIsAllowed(r *http.Request) bool {
 	}
 
 	for _, v := range strings.Split(h, ",") {
-		if slices.Index(c.AllowHeaders, strings.TrimSpace(v)) < 0 {
+		v = strings.TrimSpace(v)
+		// 报头名称不区分大小写，浏览器发送的 Access-Control-Request-Headers 通常是小写的。
+		if !slices.ContainsFunc(c.AllowHeaders, func(allow string) bool { return strings.EqualFold(allow, v) }) {
 			return false
 		}
 	}
